@@ -13,7 +13,7 @@ Local Open Scope Z_scope.
 
 
 (* ==================================================================================================== *)
-(* Completeness: honest proofs verify, provided the responses pass the verifier's validity / range checks (Go's completeness error: a zero response, an identity commitment, a mask at the edge of its range) *)
+(* Completeness: honest proofs verify, provided the responses pass the verifier's validity / range / size checks (Go's completeness error: a zero response, an identity commitment, a mask at the edge of its range) *)
 
 Theorem C10_sch_complete :
   forall (G : Type) (gadd : G -> G -> G) (gneg : G -> G) (gzero : G) (smul : Z -> G -> G) (q : Z),
@@ -91,7 +91,7 @@ Theorem C10_enc_complete :
   enc n0 k rho = Some K ->
   enc_commit nh s t n0 k alpha r mu gamma = Some (S, A, C) ->
   enc_respond n0 k rho alpha r mu gamma e = (z1, z2, z3) ->
-  in_leps z1 = true -> enc_verify nh s t n0 K S A C z1 z2 z3 e = Some true.
+  in_leps z1 = true -> zk_bounded z3 = true -> enc_verify nh s t n0 K S A C z1 z2 z3 e = Some true.
 Proof. exact enc_complete. Qed.
 Print Assumptions C10_enc_complete.
 
@@ -114,12 +114,13 @@ Theorem C10_logstar_complete :
   enc_respond n0 x rho alpha r mu gamma e = (z1, z2, z3) ->
   gis_id Y = false ->
   in_leps z1 = true ->
+  zk_bounded z3 = true ->
   logstar_verify gadd smul geqb gis_id q nh s t n0 C (act smul q x Gb) Gb S A Y D z1 z2 z3 e = Some true.
 Proof. exact @logstar_complete. Qed.
 Print Assumptions C10_logstar_complete.
 
 
-(* zkdec and zkmul have NO l+eps range check in Verify: the only proviso is the guard of EncWithNonce, |z| <= N/2. *)
+(* zkdec and zkmul have NO l+eps range check in Verify: the provisos are the plaintext range of EncWithNonce, |z| <= N/2, and the size bound of pedersen.Verify. *)
 Theorem C10_dec_complete :
   forall q : Z,
   1 < q ->
@@ -134,7 +135,9 @@ Theorem C10_dec_complete :
   dec_commit q nh s t n0 y alpha mu nu r = Some (S, T, A, Gamma) ->
   dec_respond n0 y rho alpha mu nu r e = (z1, z2, w) ->
   sc_zero q Gamma = false ->
-  Z.abs z1 <= n0 / 2 -> dec_verify q nh s t n0 C (y mod q) S T A Gamma z1 z2 w e = Some true.
+  in_plaintext n0 z1 = true ->
+  zk_bounded z1 = true ->
+  zk_bounded z2 = true -> dec_verify q nh s t n0 C (y mod q) S T A Gamma z1 z2 w e = Some true.
 Proof. exact dec_complete. Qed.
 Print Assumptions C10_dec_complete.
 
@@ -150,7 +153,7 @@ Theorem C10_mul_complete :
   C = randomize n (mul n x Y) rho ->
   mul_commit n Y alpha r sn = Some (A, B) ->
   mul_respond n x rho rhox alpha r sn e = (z, u, v) ->
-  Z.abs z <= n / 2 -> mul_verify n X Y C A B z u v e = Some true.
+  in_plaintext n z = true -> mul_verify n X Y C A B z u v e = Some true.
 Proof. exact mul_complete. Qed.
 Print Assumptions C10_mul_complete.
 
@@ -182,6 +185,8 @@ Theorem C10_affg_complete :
   gis_id Bx = false ->
   in_leps z1 = true ->
   in_lprimeeps z2 = true ->
+  zk_bounded z3 = true ->
+  zk_bounded z4 = true ->
   affg_verify gadd smul geqb gis_id gbase q nh s t n1 n0 Kv (add n0 (mul n0 x Kv) Dv) Fp 
     (act smul q x gbase) A Bx By E S F T z1 z2 z3 z4 w wy e = Some true.
 Proof. exact @affg_complete. Qed.
@@ -212,6 +217,8 @@ Theorem C10_affp_complete :
   affp_respond n1 n0 x y sn rx r alpha beta rho rhox rhoy gamma m delta mu e = (z1, z2, z3, z4, w, wx, wy) ->
   in_leps z1 = true ->
   in_lprimeeps z2 = true ->
+  zk_bounded z3 = true ->
+  zk_bounded z4 = true ->
   affp_verify nh s t n1 n0 Kv (add n0 (mul n0 x Kv) Dv) Fp Xp A Bx By E S F T z1 z2 z3 z4 w wx wy e = Some true.
 Proof. exact affp_complete. Qed.
 Print Assumptions C10_affp_complete.
@@ -235,6 +242,7 @@ Theorem C10_mulstar_complete :
   mulstar_respond n0 x rho alpha r gamma m e = (z1, z2, w) ->
   gis_id Bx = false ->
   in_leps z1 = true ->
+  zk_bounded z2 = true ->
   mulstar_verify gadd smul geqb gis_id gbase q nh s t n0 C D (act smul q x gbase) A Bx E S z1 z2 w e = Some true.
 Proof. exact @mulstar_complete. Qed.
 Print Assumptions C10_mulstar_complete.
@@ -262,6 +270,7 @@ Theorem C10_encelg_complete :
   gis_id Y = false ->
   gis_id Zp = false ->
   in_leps z1 = true ->
+  zk_bounded z3 = true ->
   encelg_verify gadd smul geqb gis_id gbase q nh s t n0 C A (act smul q b gbase) (act smul q (a * b + x) gbase)
     S D Y Zp T z1 w z2 z3 e = Some true.
 Proof. exact @encelg_complete. Qed.
@@ -276,7 +285,11 @@ Theorem C10_fac_complete :
   fac_commit nh s t pp qq alpha beta mu nu r x y = (P, Q, A, B, T) ->
   fac_respond pp qq alpha beta mu nu sigma r x y e = (z1, z2, w1, w2, v) ->
   in_leps1rootn z1 = true ->
-  in_leps1rootn z2 = true -> fac_verify (pp * qq) nh s t P Q A B T sigma z1 z2 w1 w2 v e = Some true.
+  in_leps1rootn z2 = true ->
+  zk_bounded sigma = true ->
+  zk_bounded w1 = true ->
+  zk_bounded w2 = true ->
+  zk_bounded v = true -> fac_verify (pp * qq) nh s t P Q A B T sigma z1 z2 w1 w2 v e = Some true.
 Proof. exact fac_complete. Qed.
 Print Assumptions C10_fac_complete.
 
@@ -306,9 +319,10 @@ Print Assumptions C10_prm_complete.
        mod_verify (p*q) w (mod_respond p q w ys) ys = Some true.
    Proved below: every repetition verifies when the candidate chosen by makeQuadraticResidue passes isQRmodPQ
    (by construction for the first three candidates) and Euler's theorem holds for y.  Missing: X and Z are units in
-   [1, N) (Proof.IsValid, called by Verify since the zkmod fix; negligible failure for y sharing a factor with N), the quadratic-residuosity
-   fact that the fourth candidate is a residue when the first three are not (Euler's criterion modulo p and q and
-   jacobi w = -1), probably_prime (p*q) = false, and the instantiation of Euler's theorem (PaillierProofs.euler_N). *)
+   [1, N) (Proof.IsValid, called by Verify since the zkmod fix; negligible failure for y sharing a factor with N),
+   the quadratic-residuosity fact that the fourth candidate is a residue when the first three are not (Euler's criterion
+   modulo p and q and jacobi w = -1), probably_prime (p*q) = false, and the instantiation of Euler's theorem
+   (PaillierProofs.euler_N). *)
 Theorem C10_mod_complete_partial :
   forall p q : Z,
   1 < p ->
@@ -354,7 +368,7 @@ Theorem C10_dec_range_slack :
   forall n0 y rho alpha mu nu r e : Z,
   Z.abs e < 2 ^ 256 ->
   Z.abs y <= 2 ^ 256 ->
-  Z.abs alpha <= n0 / 2 - 2 ^ 512 -> Z.abs (fst (fst (dec_respond n0 y rho alpha mu nu r e))) <= n0 / 2.
+  Z.abs alpha <= n0 / 2 - 2 ^ 512 -> in_plaintext n0 (fst (fst (dec_respond n0 y rho alpha mu nu r e))) = true.
 Proof. exact dec_range_slack. Qed.
 Print Assumptions C10_dec_range_slack.
 
@@ -362,7 +376,7 @@ Theorem C10_mul_range_slack :
   forall n x rho rhox alpha r s e : Z,
   Z.abs e < 2 ^ 256 ->
   Z.abs x <= 2 ^ 256 ->
-  Z.abs alpha <= n / 2 - 2 ^ 512 -> Z.abs (fst (fst (mul_respond n x rho rhox alpha r s e))) <= n / 2.
+  Z.abs alpha <= n / 2 - 2 ^ 512 -> in_plaintext n (fst (fst (mul_respond n x rho rhox alpha r s e))) = true.
 Proof. exact mul_range_slack. Qed.
 Print Assumptions C10_mul_range_slack.
 
@@ -516,30 +530,43 @@ Proof. exact prm_range_enforced. Qed.
 Print Assumptions C10_prm_response_range_enforced.
 
 
-(* zkdec, zkmul: C10_dec_response_range_enforced_todo / C10_mul_response_range_enforced_todo:
-     2^768 <= |z1| -> dec_verify ... = Some false        (the l+eps range of the paper's statement)
-   does NOT hold for the code: C10_dec_complete / C10_mul_complete accept every |z1| <= N/2.  What the code enforces is
-   the guard of EncWithNonce, and it enforces it by a PANIC, not by rejection (a malicious prover can crash the verifier). *)
+(* zkdec, zkmul (with work/zkfix/01-zk-validate.diff): a response that EncWithNonce would refuse (|z| > N/2) is REJECTED, and
+   the verifiers can no longer panic.  The l+eps range of the paper's sibling proofs is not checked:
+   C10_dec_response_range_enforced_todo:  2^768 <= |z1| -> dec_verify ... = Some false   does not hold (C10_dec_complete). *)
 Theorem C10_dec_response_range_enforced_partial :
   forall q nh s t n0 C X S T A Gamma z1 z2 w e : Z,
-  n0 / 2 < Z.abs z1 -> dec_verify q nh s t n0 C X S T A Gamma z1 z2 w e <> Some true.
-Proof. exact dec_range_partial. Qed.
+  n0 / 2 < Z.abs z1 -> dec_verify q nh s t n0 C X S T A Gamma z1 z2 w e = Some false.
+Proof. exact dec_range_enforced. Qed.
 Print Assumptions C10_dec_response_range_enforced_partial.
 
-Theorem C10_dec_oversized_response_panics :
-  forall q nh s t n0 C X S T A Gamma z1 z2 w e : Z,
-  n0 / 2 < Z.abs z1 ->
-  sc_zero q Gamma = false ->
-  validate_ct n0 A = true ->
-  valid_mod n0 w = true ->
-  ped_verify nh s t z1 z2 e T S = true -> dec_verify q nh s t n0 C X S T A Gamma z1 z2 w e = None.
-Proof. exact dec_oversized_panics. Qed.
-Print Assumptions C10_dec_oversized_response_panics.
+Theorem C10_dec_never_panics :
+  forall q nh s t n0 C X S T A Gamma z1 z2 w e : Z, dec_verify q nh s t n0 C X S T A Gamma z1 z2 w e <> None.
+Proof. exact dec_never_panics. Qed.
+Print Assumptions C10_dec_never_panics.
 
 Theorem C10_mul_response_range_enforced_partial :
-  forall n X Y C A B z u v e : Z, n / 2 < Z.abs z -> mul_verify n X Y C A B z u v e <> Some true.
-Proof. exact mul_range_partial. Qed.
+  forall n X Y C A B z u v e : Z, n / 2 < Z.abs z -> mul_verify n X Y C A B z u v e = Some false.
+Proof. exact mul_range_enforced. Qed.
 Print Assumptions C10_mul_response_range_enforced_partial.
+
+Theorem C10_mul_never_panics :
+  forall n X Y C A B z u v e : Z, mul_verify n X Y C A B z u v e <> None.
+Proof. exact mul_never_panics. Qed.
+Print Assumptions C10_mul_never_panics.
+
+
+(* bounded work: integers of more than 4865 bits (|n| >= 2^(1+l+eps) N^2) are refused by pedersen.Verify and zkfac before any exponentiation *)
+Theorem C10_pedersen_oversized_refused :
+  forall n s t a b e S T : Z, 2 ^ 4865 <= Z.abs a \/ 2 ^ 4865 <= Z.abs b -> ped_verify n s t a b e S T = false.
+Proof. exact ped_oversized_refused. Qed.
+Print Assumptions C10_pedersen_oversized_refused.
+
+Theorem C10_fac_oversized_refused :
+  forall n0 nh s t P Q A B T sigma z1 z2 w1 w2 v e : Z,
+  2 ^ 4865 <= Z.abs sigma \/ 2 ^ 4865 <= Z.abs w1 \/ 2 ^ 4865 <= Z.abs w2 \/ 2 ^ 4865 <= Z.abs v ->
+  fac_verify n0 nh s t P Q A B T sigma z1 z2 w1 w2 v e = Some false.
+Proof. exact fac_oversized_refused. Qed.
+Print Assumptions C10_fac_oversized_refused.
 
 
 (* zkmod: since the fix "zkmod.Verify validates W and the responses" (Verify calls Proof.IsValid) every X and Z must be
@@ -559,6 +586,8 @@ Theorem C10_fac_sigma_not_bound :
   unit nh s ->
   unit nh t ->
   0 <= n0 ->
+  zk_bounded (sigma + d) = true ->
+  zk_bounded (v + d * e) = true ->
   fac_verify n0 nh s t P Q A B T sigma z1 z2 w1 w2 v e = Some true ->
   fac_verify n0 nh s t P Q A B T (sigma + d) z1 z2 w1 w2 (v + d * e) e = Some true.
 Proof. exact fac_sigma_not_bound. Qed.
@@ -800,15 +829,22 @@ Example ex_enc_toy :
   end.
 Proof. vm_compute. repeat split. Qed.
 
-(* zkdec at toy size: a response above N/2 that satisfies the Pedersen check makes the verifier PANIC (None) *)
-Example ex_dec_panic :
+(* zkdec at toy size: a response above N/2 that satisfies the Pedersen check is REJECTED (before work/zkfix/01-zk-validate.diff
+   the verifier panicked in EncWithNonce) *)
+Example ex_dec_oversized_rejected :
   exists Sc T A Gamma z1 z2 w e,
-    dec_verify 101 77 64 4 77 (encval 77 3 5) 3 Sc T A Gamma z1 z2 w e = None.
+    dec_verify 101 77 64 4 77 (encval 77 3 5) 3 Sc T A Gamma z1 z2 w e = Some false /\ 77 / 2 < Z.abs z1 /\
+    ped_verify 77 64 4 z1 z2 e T Sc = true.
 Proof.
   exists (ped_commit 77 64 4 3 6), (ped_commit 77 64 4 50 (-8)), (encval 77 50 9), 50,
          (2 * 3 + 50), (2 * 6 + (-8)), ((expI 77 5 2 * 9) mod 77), 2.
-  vm_compute. reflexivity.
+  vm_compute. repeat split.
 Qed.
+
+Example ex_oversized_exponent_refused :   (* 2^4865 as second exponent *)
+  ped_verify 77 64 4 1 (2 ^ 4865) 1 (ped_commit 77 64 4 1 1) (ped_commit 77 64 4 1 1) = false /\
+  zk_bounded (2 ^ 4865 - 1) = true /\ zk_bounded (2 ^ 4865) = false.
+Proof. vm_compute. repeat split. Qed.
 
 Example ex_prm_hyps_satisfiable :   (* N = 77, phi = 60, t = 4 has order 15 | 60, lambda = 3 *)
   powmod 77 4 60 = 1 /\ ped_validate 77 (powmod 77 4 3) 4 = true /\
